@@ -96,6 +96,8 @@ def cmd_check(args):
               f"PYTHONHASHSEED={hs['hashseed']} (indices {hs['bad'][:5]}) - hash order leaks into the library's results "
               f"or into the harness", flush=True)
         rc = rc or 2
+    if nviol:
+        rc = 1       # a confirmed, replayed violation outranks harness trouble elsewhere in the batch
     write_evidence(mod, pid, tier, base, total, wall, nviol)
     for ln in viol_lines:
         print(ln, flush=True)
